@@ -127,7 +127,7 @@ fn mutate(r: &mut Rng, mut b: Vec<u8>) -> Vec<u8> {
 }
 
 pub fn gen(tier: Tier, r: &mut Rng, emit: &mut dyn FnMut(String)) {
-    let n = if tier == Tier::Quick { 2_500 } else { 80_000 };
+    let n = if tier == Tier::Quick { 2_500 } else { 12_000 };
     for i in 0..n {
         let o = if i % 3 == 0 { GenOpts { block_scalars: true, comments: true, breaks: true, anchors: false, multidoc: false, max_depth: 3 } } else { ALL };
         let ps = {
